@@ -3,7 +3,7 @@
    in TsRun/TsRunFacts.v, with Print Assumptions beneath it.  The interpreter is TsRun/TsRun.v
    (run_line, run_lines, run_script, cli_exit); the declarative reading of "meets its demand"
    is TsRun/TsSpec.v (demand_met, skip_met, unmet, lines_met, all_met, exec_all). *)
-From Coq Require Import List Bool Arith NArith.
+From Coq Require Import List Bool Arith NArith Permutation.
 From Coq.Strings Require Import Byte.
 From GI Require Import Lib.Bytes Gen.TsRunConsts Txtar.Txtar
   TsRun.TsFs TsRun.TsRegex TsRun.TsRegexFacts TsRun.TsState TsRun.TsCmds TsRun.TsRun TsRun.TsSpec TsRun.TsRunFacts.
@@ -117,11 +117,71 @@ Proof. exact guard_false_noop. Qed.
 Print Assumptions C01_guard_false_noop.
 
 Theorem C01_neg_flips_exec : forall cfg args st s,
-  fg_args args ->
+  fg_args args -> exec_times_out cfg args st = false ->
   (cmd_exec cfg true args st = Done s <-> cmd_exec cfg false args st = Failed s)
   /\ (cmd_exec cfg true args st = Failed s <-> cmd_exec cfg false args st = Done s).
 Proof. exact neg_flips_exec. Qed.
 Print Assumptions C01_neg_flips_exec.
+
+(* "with a leading ! it fails in the way that command defines": being stopped by testscript
+   because the deadline of the run is reached is not the command failing *)
+Theorem C01_neg_does_not_excuse_timeout : forall cfg args st,
+  fg_args args -> exec_times_out cfg args st = true ->
+  exists s, forall neg, cmd_exec cfg neg args st = Failed s.
+Proof. exact neg_does_not_excuse_timeout. Qed.
+Print Assumptions C01_neg_does_not_excuse_timeout.
+
+Theorem C01_no_deadline_no_timeout : forall cfg args st,
+  c_deadline cfg = false -> c_cancelled cfg = false -> exec_times_out cfg args st = false.
+Proof. exact no_deadline_no_timeout. Qed.
+Print Assumptions C01_no_deadline_no_timeout.
+
+Theorem C01_timeout_line_unmet : forall cfg st line neg args,
+  reaches cfg st line neg (CBuiltin exec_name) args -> fg_args args ->
+  exec_times_out cfg args st = true -> unmet cfg st line.
+Proof. exact timeout_line_unmet. Qed.
+Print Assumptions C01_timeout_line_unmet.
+
+Theorem C01_timeout_fails_run : forall cfg text st0 pre l post st1 neg args,
+  c_continue cfg = false ->
+  script_lines text = pre ++ l :: post -> lines_met cfg pre 0 false st0 st1 -> is_comment l = false ->
+  reaches cfg (at_line (S (length pre)) false st1) l neg (CBuiltin exec_name) args -> fg_args args ->
+  exec_times_out cfg args (at_line (S (length pre)) false st1) = true ->
+  r_verdict (run_script cfg text st0) = Fail (S (length pre))
+  /\ r_fail_lines (run_script cfg text st0) = [S (length pre)].
+Proof. exact timeout_fails_run. Qed.
+Print Assumptions C01_timeout_fails_run.
+
+Theorem C01_wait_timeout_fails : forall cfg st,
+  wait_times_out cfg (s_bg st) = true -> cmd_wait cfg [] st = Failed (timed_out_state cfg st).
+Proof. exact wait_timeout_fails. Qed.
+Print Assumptions C01_wait_timeout_fails.
+
+Theorem C01_wait_named_timeout_fails : forall cfg st n bg,
+  find_bg (s_bg st) n = Some bg -> c_deadline cfg = true -> running_sleeper bg = true ->
+  cmd_wait cfg [n] st = Failed (timed_out_state cfg st).
+Proof. exact wait_named_timeout_fails. Qed.
+Print Assumptions C01_wait_named_timeout_fails.
+
+(* several scripts in one RunT call (refCount protocol of the shared context): the verdict of
+   a script is the verdict of that script run alone, whatever stands around it, in any order *)
+Theorem C01_verdict_independent_of_batch : forall cfg jobs,
+  c_cancelled cfg = false -> runT_seq cfg jobs = batch_verdicts cfg jobs.
+Proof. exact verdict_independent_of_batch. Qed.
+Print Assumptions C01_verdict_independent_of_batch.
+
+Theorem C01_verdict_independent_of_batch_nth : forall cfg pre j post,
+  c_cancelled cfg = false ->
+  nth_error (runT_seq cfg (pre ++ j :: post)) (length pre)
+  = Some (r_verdict (run_file cfg (j_work j) (j_env j) (j_file j))).
+Proof. exact verdict_independent_of_batch_nth. Qed.
+Print Assumptions C01_verdict_independent_of_batch_nth.
+
+Theorem C01_verdict_independent_of_order : forall cfg jobs jobs',
+  c_cancelled cfg = false -> Permutation jobs jobs' ->
+  Permutation (runT_seq cfg jobs) (runT_seq cfg jobs').
+Proof. exact verdict_independent_of_order. Qed.
+Print Assumptions C01_verdict_independent_of_order.
 
 Theorem C01_unknown_cmd_fails : forall cfg st line words cw neg name args,
   tokenise (s_env st) line = Some words -> guards_pass cfg st words cw ->
